@@ -1295,6 +1295,41 @@ class Environment:
 ####################
 
 
+def _sub_jaxprs(params):
+    """Jaxprs held directly, or in a tuple/list, by an equation's params."""
+    for value in params.values():
+        for v in value if isinstance(value, (tuple, list)) else (value,):
+            if isinstance(v, ClosedJaxpr):
+                yield v.jaxpr
+            elif isinstance(v, Jaxpr):
+                yield v
+
+
+def _find_sampling_site(jaxpr: Jaxpr):
+    """Hidden params of the first sampling site in `jaxpr`, searching sub-jaxprs too."""
+    for eqn in jaxpr.eqns:
+        primitive, inner_params = PPPrimitive.unwrap(eqn.primitive)
+        if primitive in (sample_p, adev_sample_p):
+            return inner_params
+        for sub in _sub_jaxprs(eqn.params):
+            site = _find_sampling_site(sub)
+            if site is not None:
+                return site
+    return None
+
+
+def _check_no_unseeded_sampling(eqn):
+    """Same policy as the lowering rule, for an equation `Seed` does not interpret."""
+    for sub in _sub_jaxprs(eqn.params):
+        site = _find_sampling_site(sub)
+        if site is None:
+            continue
+        if "lowering_warning" in site and lowering_warning:
+            warnings.warn(site["lowering_warning"])
+        elif "lowering_exception" in site and enforce_lowering_exception:
+            raise site["lowering_exception"]
+
+
 @dataclass
 class Seed:
     """Interpreter that eliminates probabilistic primitives with explicit randomness.
@@ -1413,6 +1448,9 @@ class Seed:
                 )
 
             else:
+                # Not interpreted here: binding it would run the sampling sites of
+                # its sub-jaxprs (custom_jvp / checkpoint / call bodies) unseeded.
+                _check_no_unseeded_sampling(eqn)
                 outvals = eqn.primitive.bind(*args, **params)
 
             if not eqn.primitive.multiple_results:
